@@ -176,11 +176,22 @@ def run(cx, rep):
     # ---------------------------------------------------------------- C12.3
     rep.rule("C12.3", "path discipline")
     n_push = 0
-    for cname, c in sorted(mod.classes.items()):
-        for mname, m in sorted(c.methods.items()):
-            fn = m["function"]
-            if fn.get("body") is None:
-                continue
+    # the push/pop pairs may sit in methods of the classes or in module-level helpers they share (benign b94: four
+    # copies of push / child.reportDecodeError / pushAll / pop became `reportChildErrors(ctx, acc, child, container,
+    # key, pathSegment)`): both are walked, and for the floor a site in a shared helper stands for each of its call
+    # sites (copies merged into one helper are still that many uses - as for C16.1 / C16.2)
+    units = [(cname, mname, m["function"], "%s.%s" % (cname, mname)) for cname, c in sorted(mod.classes.items())
+             for mname, m in sorted(c.methods.items()) if m["function"].get("body") is not None]
+    units += [(None, fname, fn, fname) for fname, fn in sorted(mod.functions.items()) if fn.get("body") is not None]
+    users = {}
+    for c2, m2, fn2, _ in units:
+        for x in walk(fn2):
+            if x["type"] == "CallExpression":
+                r_ = tsast.resolve_local_call(mod, c2, x)
+                if r_ is not None and r_[0] is not fn2:
+                    users[id(r_[0])] = users.get(id(r_[0]), 0) + 1
+    for cname, mname, fn, ulabel in units:
+        if True:
             for blk in [x for x in walk(fn) if x["type"] == "BlockStatement"]:
                 st = blk["stmts"]
                 depth = 0
@@ -188,12 +199,12 @@ def run(cx, rep):
                     call = sx["expression"] if sx["type"] == "ExpressionStatement" else None
                     name = s(call["callee"]) if call and call["type"] == "CallExpression" else None
                     if name == "pushPath":
-                        n_push += 1
+                        n_push += max(1, users.get(id(fn), 0))
                         depth += 1
                     elif name == "popPath":
                         depth -= 1
                         if depth < 0:
-                            rep.ob("C12.3", "%s.%s/pop-without-push" % (cname, mname), False, "popPath without a pushPath in the same block", mod.loc(sx))
+                            rep.ob("C12.3", "%s/pop-without-push" % ulabel, False, "popPath without a pushPath in the same block", mod.loc(sx))
                             depth = 0
                     elif depth > 0:
                         # a return/throw/continue/break while a key is pushed leaves the path dirty
@@ -201,23 +212,37 @@ def run(cx, rep):
                         # break/continue belonging to a loop nested inside sx are fine
                         esc = [x for x in esc if x["type"] == "ReturnStatement" or not any(l["type"] in ("ForOfStatement", "ForStatement", "ForInStatement", "WhileStatement") and any(y is x for y in walk(l)) for l in walk(sx))]
                         if esc:
-                            rep.ob("C12.3", "%s.%s/escape-while-pushed" % (cname, mname), False,
-                                   "%s.%s leaves the block between pushPath and popPath (%s): later errors carry a wrong path" % (cname, mname, esc[0]["type"]), mod.loc(esc[0]))
+                            rep.ob("C12.3", "%s/escape-while-pushed" % ulabel, False,
+                                   "%s leaves the block between pushPath and popPath (%s): later errors carry a wrong path" % (ulabel, esc[0]["type"]), mod.loc(esc[0]))
                 if depth != 0:
-                    rep.ob("C12.3", "%s.%s/unbalanced" % (cname, mname), False, "%s.%s: pushPath without popPath in the same block" % (cname, mname), mod.loc(blk))
+                    rep.ob("C12.3", "%s/unbalanced" % ulabel, False, "%s: pushPath without popPath in the same block" % ulabel, mod.loc(blk))
             # arrow callbacks with expression bodies are covered by the block walk above when they have block bodies
     rep.ob("C12.3", "balanced", True, sample={"pushPath_sites": n_push})
     rep.floor("C12.3", "pushPath sites", n_push, 12)
     # inside a push(k) region the reported value is input[k]
+    # (a region that moved into a local helper is judged at each call site of the helper inside a reporter, with the
+    # arguments in place of the parameters - `reportChildErrors(ctx, acc, this.properties[k], input, k, k)` is the
+    # region push(k) .. this.properties[k].reportDecodeError(ctx, input[k]) .. pop; a path key that is still a
+    # parameter there, because the argument is computed (`[${i}]`), is no more judged than a computed key written in
+    # place)
+    regions = []   # (class, method, input name, node to scan, names that are not keys of the input)
     for cname, mname, fn in ts_common.family_methods(fam, ("reportDecodeError",)):
         inp = ts_common.fn_params(fn)[1]
+        regions.append((cname, mname, inp, fn, set()))
+        for x in walk(fn):
+            r_ = tsast.resolve_local_call(mod, cname, x) if x["type"] == "CallExpression" else None
+            if r_ is None or r_[0] is fn or not any(y["type"] == "CallExpression" and s(y["callee"]) == "pushPath" for y in walk(r_[0])):
+                continue
+            body_, sub_ = tsast.inline_clone(r_[0], x)
+            regions.append((cname, mname, inp, body_, {p_ for p_ in ts_common.fn_params(r_[0]) if p_ and p_ not in sub_}))
+    for cname, mname, inp, fn, unbound in regions:
         for blk in [x for x in walk(fn) if x["type"] == "BlockStatement"]:
             st = blk["stmts"]
             for i, sx in enumerate(st):
                 call = sx["expression"] if sx["type"] == "ExpressionStatement" else None
                 if call and call["type"] == "CallExpression" and s(call["callee"]) == "pushPath" and len(call["arguments"]) == 2:
                     key = unparen(call["arguments"][1]["expression"])
-                    if key["type"] != "Identifier":
+                    if key["type"] != "Identifier" or key["value"] in unbound:
                         continue
                     k = key["value"]
                     for sj in st[i + 1:]:
